@@ -233,12 +233,14 @@ pub fn run(rep: &mut Report, backend: Bk, thorough: bool) {
     // ---- replays and re-wrappings of captured ciphertexts ----------------------------------------
     let captured: Vec<(&str, &Event)> = vec![("victims", &w.pool[v0].event), ("members-own", &w.pool[m0].event), ("commit", &w.pool[rm].event)];
     for (clabel, ev) in &captured {
-        for (hlabel, h) in [("same-h", None), ("other-groups-h", Some(g2_h))] {
-            let re = match rewrap(ev, h) {
+        for (hlabel, h, smaller) in [("same-h,smaller-id", None, true), ("same-h,larger-id", None, false), ("other-groups-h,smaller-id", Some(g2_h), true), ("other-groups-h,larger-id", Some(g2_h), false)] {
+            let re = match rewrap_ordered(ev, h, smaller) {
                 Ok(e) => e,
                 Err(e) => {
-                    rep.machinery_errors.push(format!("c04 rewrap: {}", e.0));
-                    return;
+                    // the captured event's id is at the very edge of the id space: this ordering cannot be built in this run
+                    rep.add_count("rewrap_orderings_not_constructible", 1);
+                    let _ = e;
+                    continue;
                 }
             };
             for order in ["original-first", "rewrapped-first"] {
@@ -304,4 +306,81 @@ pub fn run(rep: &mut Report, backend: Bk, thorough: bool) {
     rep.states += bases.len() as u64;
     rep.transitions += rep.evaluations;
     rep.sample(json!({"sender": "member", "rumor": {"pubkey": "victim", "id": "victims-message", "kind": 9, "tags": "none", "created_at": "now"}, "receiver": "Z", "base_state": "victim-message-already-stored"}));
+}
+
+/// One author posts the same rumor (same id) to two groups the receiver is in; the copy in group 1 was sent on a
+/// branch that loses a commit race, so a rollback invalidates it. The copy in group 2 - another group - must stay
+/// exactly as it was (for every delivery position of the second copy relative to the race).
+pub fn cross_group_rollback(rep: &mut Report, backend: Bk) {
+    let sc = base("c04-two-groups", &["A", "B", "M", "Z"], &["A", "B"], &[], vec![act("A", ActKind::Rename("loser".into()), 20).then(vec![act("M", ActKind::Msg("posted-to-both-groups".into()), 5)]), act("B", ActKind::Rename("winner".into()), 10)]);
+    let w = match build_world(&sc, backend) {
+        Ok(w) => w,
+        Err(e) => {
+            rep.machinery_errors.push(format!("c04 two-groups world: {}", e.0));
+            return;
+        }
+    };
+    let idx = |s: &str| w.pool.iter().position(|p| p.label.contains(s)).unwrap();
+    let (loser, winner, dual) = (idx("A.rename0"), idx("B.rename1"), idx("M.msg0"));
+    let Some(rum) = w.pool[dual].rumor.clone() else { return };
+    let m_cl = &w.initial["M"];
+    let z0 = &w.initial["Z"];
+    let kp = z0.key_package_event();
+    let cfgd = NostrGroupConfigData::new("g2".into(), "second".into(), None, None, None, vec![relay("wss://g2.example")], vec![m_cl.pk()]);
+    let Ok(g2) = with_mdk!(m_cl, m => m.create_group(&m_cl.pk(), vec![kp], cfgd)) else {
+        rep.machinery_errors.push("c04 two-groups: create_group".into());
+        return;
+    };
+    let g2id = g2.group.mls_group_id.clone();
+    let _ = with_mdk!(m_cl, m => m.merge_pending_commit(&g2id));
+    let wid = EventId::from_slice(&sha2_32(b"c04-two-groups-welcome")).unwrap();
+    let Ok(wl) = with_mdk!(z0, m => m.process_welcome(&wid, &g2.welcome_rumors[0])) else { return };
+    let _ = with_mdk!(z0, m => m.accept_welcome(&wl));
+    // the same rumor again, for group 2 (id is a function of its fields)
+    let mut r2 = rum.clone();
+    r2.id = None;
+    let Ok(copy2) = with_mdk!(m_cl, m => m.create_message(&g2id, r2)) else {
+        rep.machinery_errors.push("c04 two-groups: second copy".into());
+        return;
+    };
+    let g1 = hx(w.gid.as_slice());
+    let g2h = hx(g2id.as_slice());
+    let id = rum.id.map(|i| i.to_hex()).unwrap_or_default();
+    // every position of the group-2 copy in the group-1 history [loser, group-1 copy, winner]
+    for pos in 0..=3usize {
+        let z = z0.fork();
+        let mut results = Vec::new();
+        let g1_events = [&w.pool[loser].event, &w.pool[dual].event, &w.pool[winner].event];
+        let mut before_last: Option<Message> = None;
+        for k in 0..=3usize {
+            if k == pos {
+                results.push(format!("g2-copy:{}", result_kind(&z.process(&copy2))));
+            }
+            if k < 3 {
+                if k == 2 {
+                    before_last = all_messages(&z).get(&(g2h.clone(), id.clone())).cloned();
+                }
+                results.push(result_kind(&z.process(g1_events[k])));
+            }
+        }
+        let after = all_messages(&z);
+        let c2 = after.get(&(g2h.clone(), id.clone()));
+        let c1 = after.get(&(g1.clone(), id.clone()));
+        rep.case(&format!("two-groups|{backend:?}|{pos}|{}|{:?}|{:?}", results.join("+"), c1.map(|m| m.state.as_str().to_string()), c2.map(|m| m.state.as_str().to_string())));
+        rep.evaluations += 1;
+        let rolled_back = c1.map(|m| m.state.as_str() == "epoch_invalidated").unwrap_or(false);
+        rep.outcome(&format!("two-groups:{}:g1-copy-invalidated={rolled_back}", results.join("+")));
+        match c2 {
+            None => rep.finding(format!("C04|same-id-message-of-another-group-missing|{backend:?}"), format!("the copy in the second group is not stored (position {pos}: {results:?})"), json!({"position": pos, "results": results})),
+            Some(m) => {
+                if m.state.as_str() != "processed" || m.content != "posted-to-both-groups" || m.pubkey != m_cl.pk() {
+                    rep.finding(
+                        format!("C04|same-id-message-of-another-group-altered|{backend:?}|state={}", m.state.as_str()),
+                        format!("a commit race in group 1 changed the message with the same id stored for group 2 (position {pos}: {results:?}): {}", msg_fields(m)),
+                        json!({"position": pos, "results": results, "backend": format!("{backend:?}"), "before_the_winner": before_last.as_ref().map(msg_fields)}),
+                    );
+                }
+            }
+        }
+    }
 }
